@@ -13,7 +13,7 @@ RULE = ("bounded-exhaustive: every item list of length 1..4 over {0,1,2,3,5} wit
 EXPLANATION = ("prtpy.pack outputs compared with the Gallina model (canonical form: multiset of (sum, multiset of values)) and judged by the "
                "verified checkers is_packing_b / nonempty_b; theorems C03_* prove the predicate for the model for all inputs.")
 ASSUMPTIONS = ["integers below 2^53; bin completion: bin size <= 2^30 (float expression numbins + sum/binsize modelled by cross-multiplication)"]
-OPEN_STATEMENTS = ["bc_packing (bin completion is a feasible packing of the non-zero items): proved only as far as Proofs/BCProofs.v goes; checked on every generated input by is_packing_b"]
+OPEN_STATEMENTS = []
 
 
 def units(rng, tier):
@@ -41,6 +41,11 @@ def units(rng, tier):
         for a in ("ff", "ffd", "bf", "bfd"):
             us.append(pack_unit(a, C, vals, rng, fmt=rng.choice(["list", "dict_str"]), out="pst", family="dyadic/" + fam, scale=2 ** rng.randint(1, 6)))
     # bin completion's search only runs when best-fit-decreasing misses the volume bound, and its branch bookkeeping only matters
+    # inputs on which bin completion's search runs and has several alternative completions per node (near-perfect packings of
+    # mid-sized values, screened with the model): branches that share or lose items show here
+    from harness.pcommon import hard_bc_instances
+    for C, v in hard_bc_instances(rng, 8000 if tier == "quick" else 80000, 900 if tier == "quick" else 9000):
+        us.append(pack_unit("bc", C, v, family="bc-search-runs(screened)"))
     # with repeated values: a dense stream of exactly such inputs (few distinct values, 5..9 items)
     for _ in range(12000 if tier == "quick" else 120000):
         C = rng.choice([10, 12, 20, 30])
